@@ -335,3 +335,93 @@ _base_scn_b = scenarios
 def scenarios():
     return _base_scn_b() + [byteflag('KeyFlags', 'pgpy.constants.KeyFlags', 1), byteflag('KeyFlags', 'pgpy.constants.KeyFlags', 2),
                             byteflag('Features', 'pgpy.constants.Features', 1), byteflag('KeyServerPreferences', 'pgpy.constants.KeyServerPreferences', 1)]
+
+
+def notation(human):
+    """NotationData (RFC 4880 5.2.3.16): flags(4) nlen(2) vlen(2) name value; parse accepts every octet string in name and value"""
+    label = 'C05/subpackets.NotationData[%s]' % ('human-readable' if human else 'binary')
+
+    def gen(repo):
+        obls, funcs, paths = [], [], 0
+        cls = SP + 'NotationData'
+        r2 = scn.Run(repo, cls, 'parse', label + '[parse]')
+        ex, st = r2.ex, r2.st
+        OLD = z3.Const('RECEIVED', B)
+        NL, VL = OLD[4] * 256 + OLD[5], OLD[6] * 256 + OLD[7]
+        st.pc += [z3.Length(OLD) >= 8, z3.Length(OLD) >= 8 + NL + VL, (OLD[0] / 128) % 2 == (1 if human else 0)]
+        st.facts += [z3.And(OLD[i] >= 0, OLD[i] < 256) for i in range(8)]
+        buf = ex.new_buf(st, OLD)
+        _hdr_hooks(r2, z3.Const('H', B))
+        r2.set('sp', '_flags', ex.new_list(st, []))
+        for pi, (s, v) in enumerate(r2.call(E.VObj(cls, 'sp'), [buf])):
+            paths += 1
+            if isinstance(v, E.Raise):
+                r2.oblige(s, 'every-name-and-value-is-accepted(%s)/p%d' % (v.exc.split(':')[0], pi), z3.BoolVal(False), v.where)
+                continue
+            r2.oblige(s, 'consumes-8+nlen+vlen-octets/p%d' % pi, scn.same_octets(s.heap[buf.cell], z3.Extract(OLD, 8 + NL + VL, z3.Length(OLD) - 8 - NL - VL)))
+            nm, val = s.heap.get(('sp', '_name')), s.heap.get(('sp', '_value'))
+            r2.oblige(s, 'name-is-the-nlen-octets-after-the-lengths/p%d' % pi,
+                      nm.z == z3.Extract(OLD, 8, NL) if isinstance(nm, E.VStr) and nm.z is not None else z3.BoolVal(False))
+            vz = val.z if isinstance(val, E.VStr) and val.z is not None else (ex.seq(val, s) if isinstance(val, (E.VBytes, E.VBuf)) else None)
+            r2.oblige(s, 'value-is-the-vlen-octets-after-the-name/p%d' % pi, scn.same_octets(vz, z3.Extract(OLD, 8 + NL, VL)) if vz is not None else z3.BoolVal(False))
+            r2.oblige(s, 'text-iff-flagged-human-readable/p%d' % pi, z3.BoolVal(isinstance(val, E.VStr) == human))
+        res2 = r2.result()
+        return {'obligations': obls + res2['obligations'], 'funcs': funcs + res2['funcs'], 'paths': paths}
+    return Scenario(label, SP + 'NotationData', gen, props=('C05', 'C08', 'C02'))
+
+
+_base_scn_n = scenarios
+
+
+def scenarios():
+    return _base_scn_n() + [notation(True), notation(False)]
+
+
+def text_subpacket(clsname, field, lead=0, enum=None):
+    """subpackets whose body is `lead` fixed octets and free text (policy / key server URI, regular expression, signer's user id, reason
+    for revocation): parse takes exactly the stated body, accepts every octet string, and keeps the octets as code points 0..255"""
+    label = 'C05/subpackets.%s' % clsname
+
+    def gen(repo):
+        cls = SP + clsname
+        r2 = scn.Run(repo, cls, 'parse', label + '[parse]')
+        ex, st = r2.ex, r2.st
+        OLD = z3.Const('RECEIVED', B)
+        N = z3.Int('text_octets')
+        st.pc += [N >= 0, z3.Length(OLD) >= lead + N]
+        st.facts += [z3.And(OLD[i] >= 0, OLD[i] < 256) for i in range(lead)]
+        buf = ex.new_buf(st, OLD)
+        _hdr_hooks(r2, z3.Const('H', B))
+        HC = 'pgpy.packet.subpackets.types.Header'
+        r2.set('sp', 'header', E.VObj(HC, 'hdr'))
+        r2.hook(HC, 'length', scn.const(E.VInt(1 + lead + N)))
+        if enum:
+            def to_member(ex, st, c, a):
+                known = z3.Bool('known_code_%d' % len(st.pc))
+                bad = st.clone()
+                st.pc.append(known)
+                bad.pc.append(z3.Not(known))
+                return [(st, a[0]), (bad, E.Raise('ValueError', 0))]
+            r2.hook(enum, '__call__', to_member)
+        for pi, (s, v) in enumerate(r2.call(E.VObj(cls, 'sp'), [buf])):
+            if isinstance(v, E.Raise):
+                r2.oblige(s, 'every-text-and-code-is-accepted(%s)/p%d' % (v.exc.split(':')[0], pi), z3.BoolVal(False), v.where)
+                continue
+            t = s.heap.get(('sp', '_' + field))
+            r2.oblige(s, 'text-is-the-stated-octets/p%d' % pi,
+                      scn.same_octets(t.z, z3.Extract(OLD, lead, N)) if isinstance(t, E.VStr) and t.z is not None else z3.BoolVal(False))
+            r2.oblige(s, 'consumes-the-stated-body/p%d' % pi, scn.same_octets(s.heap[buf.cell], z3.Extract(OLD, lead + N, z3.Length(OLD) - lead - N)))
+            if lead:
+                c = s.heap.get(('sp', '_code'))
+                r2.oblige(s, 'code-is-the-first-octet/p%d' % pi, ex.as_int(c) == OLD[0] if isinstance(c, E.VInt) else z3.BoolVal(False))
+        return r2.result()
+    return Scenario(label, SP + clsname, gen, props=('C05', 'C08', 'C02'))
+
+
+_base_scn_t = scenarios
+
+
+def scenarios():
+    return _base_scn_t() + [text_subpacket('Policy', 'uri'), text_subpacket('PreferredKeyServer', 'uri'), text_subpacket('RegularExpression', 'regex'),
+                            text_subpacket('SignersUserID', 'userid'),
+                            text_subpacket('ReasonForRevocation', 'string', lead=1, enum='pgpy.constants.RevocationReason')]
